@@ -243,7 +243,7 @@ def run_profile(pid, tier, p, kind, base, seed, workers):
 
 def signature(pid, v):
     if v["kind"] == "predicate":
-        return {"property": pid, "bad": v["bad"], "op": v["op"].get("name", v["op"].get("a"))}
+        return {"property": pid, "bad": v["bad"], "op": v["op"].get("name", v["op"].get("a")), "profile": v.get("profile")}
     return {"property": pid, "kind": v["kind"], "algo_profile": v["profile"]}
 
 
